@@ -334,6 +334,27 @@ def replay_case(arg):
         v2 = hll(x_in)
         if not interp.close(v2, exp_v):
             fail('HistoryFree', 'value_after_S1', dict(got=float(v2), expected=exp_v))
+    # ---- outside the support: plain evaluation and evaluation with sensitivities agree on finiteness -----------
+    # (C03, last sentence).  One slot at a time is set to zero or to a negative number -- a scale of the error model or
+    # of a population sub-model, an individual parameter of a log-normal / truncated Gaussian dimension, or a harmless
+    # location; whatever plain evaluation says (finite or not), evaluateS1 must say the same, with the same finite score.
+    if not fails and n > 0:
+        for k_ in sorted(set(int(q) for q in rng.integers(n, size=3))):
+            xb = x.copy()
+            xb[k_] = float(rng.choice([0.0, -0.4]))
+            try:
+                with warnings.catch_warnings():
+                    warnings.simplefilter('ignore')
+                    vb = float(hll(xb.copy()))
+                    sb = float(hll.evaluateS1(xb.copy())[0])
+            except Exception as e:
+                fail('FiniteAgree', type(e).__name__, dict(slot=rec['names'][k_], value=xb[k_], error=repr(e)))
+                continue
+            cnt['out_of_support_points'] = cnt.get('out_of_support_points', 0) + 1
+            if not np.isfinite(vb):
+                cnt['non_finite_points'] = cnt.get('non_finite_points', 0) + 1
+            if np.isfinite(vb) != np.isfinite(sb) or (np.isfinite(vb) and not interp.close(vb, sb)):
+                fail('FiniteAgree', 'call_vs_S1', dict(slot=rec['names'][k_], value=xb[k_], call=vb, S1=sb))
     # ---- hierarchical posterior: + log-prior on the population block ----------------------
     if not fails and rec['ntop'] > 0 and (int(key, 16) + seed) % 2 == 0:
         try:
